@@ -318,6 +318,10 @@ func skipNumber(src string, pos int) (ret int) {
 		sp += 1
 	}
 	ss := sp
+	// NOTICE: a leading zero must not be followed by another digit
+	if sp+1 < se && *(*byte)(unsafe.Pointer(sp)) == '0' && isDigit(*(*byte)(unsafe.Pointer(sp + 1))) {
+		return -int(types.ERR_INVALID_CHAR)
+	}
 
 	var pointer bool
 	var exponent bool
